@@ -166,6 +166,7 @@ type Unit struct {
 	tparamWitness map[string][]Term
 	litDepth      int
 	litTarget     *ast.FuncLit
+	inRangeChan   bool
 	heapSorts     map[string]Sort
 	preHeaps      map[string]Sort
 	setupDone     bool
@@ -1255,6 +1256,9 @@ func (u *Unit) effectfulCallbacks() bool {
 
 // havoc everything the loop may change; returns nothing (env is updated in place)
 func (u *Unit) havocLoop(env *Env, li loopInfo) {
+	if u.effectfulCallbacks() && li.heapAll && env.tr != nil && !u.inRangeChan {
+		u.havocTrace(env)
+	}
 	for _, obj := range li.modVars {
 		if _, ok := env.vars[obj]; !ok {
 			continue // declared inside the loop
